@@ -117,6 +117,9 @@ def gen(props, tier, rng):
         stack = schcstream.STACKS[i % 5]
         data, pkt = rulegen.gen_stack(rng, stack)
         r = schcstream.stack_rule(rng, pkt, compute_prob=0.5)
+        if i % 2:
+            # Up / Dw alternative descriptors: a reloaded rule carries its directions as plain strings, and must select the same ones
+            r = schcstream._with_directions(rng, r, pkt, every_position=i)
         rs = [canon_rule(x) for x in schcstream._ruleset_with(rng, pkt, r)]
         ctx = {'id': 'c', 'iface': 'i', 'parser': stack, 'rules': rs}
         for st in ('first', 'best'):
